@@ -49,7 +49,7 @@ class ListMapModel(Model):
 
     # ---- templates -----------------------------------------------------------------------------
     def templates(self, tier):
-        return ["ints", "strs", "opts", "nested", "maps"]
+        return ["ints", "strs", "opts", "nested", "maps", "xfer"]
 
     def init(self, tpl):
         if tpl == "ints":
@@ -68,6 +68,9 @@ class ListMapModel(Model):
         if tpl == "maps":
             m1 = M({})
             return {"m1": m1, "ma": m1, "m2": M({"a": 1})}
+        if tpl == "xfer":
+            # values TRANSFERRED between containers: read out of one (element, map entry) and put into another by every form there is
+            return {"l1": L([1, 2]), "l2": L([]), "m1": M({})}
         raise ValueError(tpl)
 
     def clone(self, st):
@@ -97,6 +100,8 @@ class ListMapModel(Model):
         "opts": 'o1: [int?...] = [nil]\noa = o1\n',
         "nested": 'in0: [int...] = [1]\nn1: [[int...]...] = [in0, []]\nn2: [[int...]...] = []\n',
         "maps": 'm1 = map[str, int]\nma = m1\nm2 = map[str, int]\nm2["a"] = 1\n',
+        "xfer": 'l1: [int...] = [1, 2]\nl2: [int...] = []\nm1 = map[str, int]\nidf = fn(x: int) -> int {\n\treturn x\n}\n'
+                'el0 = fn() -> int {\n\treturn l1[0]\n}\nel0m = fn(x: int) -> int {\n\treturn l1[0]\n}\nbq: [bool...] = [true]\nkeepq = fn(x: int) -> bool {\n\treturn bq[0]\n}\n',
     }
 
     def prelude(self, tpl):
@@ -177,6 +182,33 @@ class ListMapModel(Model):
                     ("clear", "in0"), ("alias", "n2", "n1")]
             if st["n2"].items and len(st["n2"].items[0].items) < CAP:
                 out.append(("inner_push", "n2", 0, 9))
+        elif tpl == "xfer":
+            n1, n2 = len(st["l1"].items), len(st["l2"].items)
+            for i in (0, 1):
+                if i < n1:
+                    out += [("x_mlit", i), ("x_mset", "a", i), ("x_mreplace", "a", i), ("x_llit", i), ("x_lmap", i)]
+                    if n2 < CAP:
+                        out.append(("x_push", i))
+                    if n2 > 0:
+                        out.append(("x_lset", 0, i))
+                    cur = st["l1"].items[i]
+                    if cur < 2:
+                        out.append(("addset", "l1", i, 1))
+                    out.append(("set", "l1", i, 0))
+            if n1 >= 1:
+                out += [("x_mlit_fn",), ("x_push_fn",) if n2 < CAP else ("len", "l2"), ("x_lmap_ref",), ("x_filter_ref",)]
+            if "a" in st["m1"].d:
+                if n2 < CAP:
+                    out.append(("x_push_from_map", "a"))
+                if n1 > 0:
+                    out.append(("x_lset_from_map", 0, "a"))
+                if st["m1"].d["a"] < 2:
+                    out.append(("maddset", "m1", "a", 1))
+            out += [("reverse", "l1"), ("mset", "m1", "a", 0), ("mread", "m1", "a"), ("mvalues", "m1"), ("clear", "l2")]
+            if n1 > 1:
+                out.append(("remove", "l1", 0))
+            if n1 < 2:
+                out.append(("push", "l1", 2))
         elif tpl == "maps":
             for name in ("m1", "ma", "m2"):
                 full = name == "m1"
@@ -317,6 +349,32 @@ class ListMapModel(Model):
             st[op[1]] = M(dict(st[op[2]].d))
         elif k == "mlit":
             st[op[1]] = M({"a": 4, "b": 6})
+        elif k == "x_mlit":
+            st["m1"] = M({"a": st["l1"].items[op[1]], "b": 1})
+        elif k == "x_mlit_fn":
+            st["m1"] = M({"a": st["l1"].items[0]})
+        elif k in ("x_mset", "x_mreplace"):
+            if k == "x_mreplace":
+                obs.append(show(st["m1"].d.get(op[1])))
+            st["m1"].d[op[1]] = st["l1"].items[op[2]]
+        elif k == "x_llit":
+            st["l2"] = L([st["l1"].items[op[1]], 0])
+        elif k == "x_lmap":
+            st["l2"] = L(list(st["l1"].items))
+        elif k == "x_lmap_ref":
+            st["l2"] = L([st["l1"].items[0]] * len(st["l1"].items))
+        elif k == "x_filter_ref":
+            st["l2"] = L(list(st["l1"].items))
+        elif k == "x_push":
+            st["l2"].items.append(st["l1"].items[op[1]])
+        elif k == "x_push_fn":
+            st["l2"].items.append(st["l1"].items[0])
+        elif k == "x_lset":
+            st["l2"].items[op[1]] = st["l1"].items[op[2]]
+        elif k == "x_push_from_map":
+            st["l2"].items.append(st["m1"].d[op[1]])
+        elif k == "x_lset_from_map":
+            st["l1"].items[op[1]] = st["m1"].d[op[2]]
         else:
             raise ValueError(op)
         return obs + self.dump(tpl, st), fail
@@ -408,6 +466,32 @@ class ListMapModel(Model):
             s = f"{op[1]} = {op[2]}.clone()\n"
         elif k == "mlit":
             s = f"{op[1]} = map[str, int] {{\"a\": 4, \"b\": 6}}\n"
+        elif k == "x_mlit":
+            s = f"m1 = map[str, int] {{\"a\": l1[{op[1]}], \"b\": 1}}\n"
+        elif k == "x_mlit_fn":
+            s = "m1 = map[str, int] {\"a\": el0()}\n"
+        elif k == "x_mset":
+            s = f"m1[{lit(op[1])}] = l1[{op[2]}]\n"
+        elif k == "x_mreplace":
+            s = f"print m1.replace({lit(op[1])}, l1[{op[2]}])\n"
+        elif k == "x_llit":
+            s = f"l2: [int...] = [l1[{op[1]}], 0]\n"
+        elif k == "x_lmap":
+            s = "l2 = l1.map(idf)\n"
+        elif k == "x_lmap_ref":
+            s = "l2 = l1.map(el0m)\n"           # a callback whose result is a read out of a container
+        elif k == "x_filter_ref":
+            s = "l2 = l1.filter(keepq)\n"
+        elif k == "x_push":
+            s = with_idx(op[1], f"l2.push(l1[{iv}])\n")
+        elif k == "x_push_fn":
+            s = "l2.push(el0())\n"
+        elif k == "x_lset":
+            s = f"l2[{op[1]}] = l1[{op[2]}]\n"
+        elif k == "x_push_from_map":
+            s = f"l2.push(get m1[{lit(op[1])}])\n"
+        elif k == "x_lset_from_map":
+            s = f"l1[{op[1]}] = get m1[{lit(op[2])}]\n"
         else:
             raise ValueError(op)
         return s + dump
@@ -438,7 +522,7 @@ class VariantModel(ListMapModel):
     `~int` gives the maps int keys 1 / 2 instead of "a" / "b" (a constant numeric key on a map looks like a list index), `@fn` performs
     every operation inside a closure that refers to the containers as outer variables."""
     name = "lists-and-maps"
-    VARIANTS = ["ints~const", "maps~int", "ints@fn", "ints~const@fn", "maps@fn", "maps~int@fn", "nested@fn", "strs@fn"]
+    VARIANTS = ["ints~const", "maps~int", "ints@fn", "ints~const@fn", "maps@fn", "maps~int@fn", "nested@fn", "strs@fn", "xfer@fn"]
     KEYS = {"a": "1", "b": "2"}
 
     def templates(self, tier):
@@ -493,7 +577,7 @@ class VariantModel(ListMapModel):
             m = re.match(r"^(ix\d+) = (\d+)\n", body)
             if m:
                 body = re.sub(r"\b" + m.group(1) + r"\b", m.group(2), body[m.end():])
-        if "@fn" in tpl and not re.match(r"^[a-z][a-z0-9]* = ", body.split("\n")[-2] if body.count("\n") > 1 else body):
+        if "@fn" in tpl and not re.match(r"^[a-z][a-z0-9]*(: [^=]+)? = ", body.split("\n")[-2] if body.count("\n") > 1 else body):
             # operations that re-bind a container variable stay at module level (a plain assignment inside a function would declare a local)
             inner = "".join("\t" + l + "\n" for l in body.rstrip("\n").split("\n"))
             body = f"w{k_} = fn() {{\n{inner}}}\nw{k_}()\n"
@@ -512,7 +596,8 @@ class C13(EHistCheck):
             "string lists; lists of optionals; nested lists with an aliased inner list; maps with an alias and an independent map); alphabet: "
             "push, remove / read / index assignment / op-assignment at indices {-1, 0, len-1, len}, reverse, clear, clone, re-aliasing, join, "
             "map, filter, index_of, len, ==, to_str concatenation; maps: literal, read, index assignment, op-assignment, replace, remove, "
-            "contains_key, len, keys, values, pairs, clear, clone.  Values in {0,1,2}, list length capped at 3 by the alphabet.  States are "
+            "contains_key, len, keys, values, pairs, clear, clone; a sixth template TRANSFERS values between a list, a second list and a map by every form there is (map literal, list literal, "
+            "index assignment, push, replace, map() with the identity, through a function that returns an element, out of a map entry into a list) and then writes the slot they came from.  Values in {0,1,2}, list length capped at 3 by the alphabet.  States are "
             "de-duplicated on the canonical model heap (entities renamed by first reachability, map entries sorted); every transition is "
             "executed on the real CLI along the shortest history reaching its source state, every step printing its result and all containers.  Eight variant "
             "templates repeat the search one level shallower with literal list indices, int-keyed maps (constant numeric keys) and with every operation "
